@@ -51,6 +51,7 @@ type meaning struct {
 	post     bool
 	withdraw []bmpx.NLRI
 	announce []bmpx.NLRI
+	hidden   string // why the pseudo session's Adj-RIB-In hides the announced paths ("": it does not)
 	obsID    int
 	obsRD    uint64
 	obsV6    bool
@@ -143,9 +144,15 @@ func gen(r *hx.RNG, tr *hx.Trace) history {
 				}
 			}
 			post := r.Chance(40)
-			add(frameTok(one(func(c *bmpx.Conv) { c.RouteMon(p, post, bmpx.UpdateFor(p, wd, an)) })),
-				meaning{kind: "ann", peer: pi, post: post, withdraw: wd, announce: an})
+			variant := bmpx.PickVariant(r)
+			upd := bmpx.UpdateForV(p, wd, an, variant)
+			add(frameTok(one(func(c *bmpx.Conv) { c.RouteMon(p, post, upd) })),
+				meaning{kind: "ann", peer: pi, post: post, withdraw: wd, announce: an,
+					hidden: bmpx.HiddenKind(upd, p.AS != p.LocalAS, bmpx.RouterID)})
 			tr.Count("op_routemon")
+			if len(an) > 0 {
+				tr.Count("attrs_" + variant)
+			}
 		case k < 80:
 			if !up[pi] && !r.Chance(10) {
 				i--
@@ -261,6 +268,7 @@ type oracle struct {
 	up      map[int]bool
 	ignored map[int]bool
 	routes  map[int]map[string]bool // peer -> "<fam>|<pfx>~<id>"
+	tags    map[string]string       // "<src>~<pfx>~<id>|<rd>|<fam>" -> hidden kind of the last announcement
 }
 
 func (o *oracle) apply(m meaning) {
@@ -312,6 +320,8 @@ func (o *oracle) apply(m meaning) {
 		}
 		for _, n := range m.announce {
 			o.routes[m.peer][key(n)] = true
+			k := key(n)
+			o.tags[fmt.Sprintf("%s~%s|%x|%s", peerSrc(p), k[2:], p.RD, k[:1])] = m.hidden
 		}
 	}
 }
@@ -340,6 +350,24 @@ func (o *oracle) shadowed(rd uint64, miss []string) bool {
 	return len(miss) > 0
 }
 
+// hiddenKind: every missing route was last announced with attributes the pseudo session's Adj-RIB-In
+// hides, all for the same reason
+func (o *oracle) hiddenKind(rd uint64, v6 bool, miss []string) string {
+	fam := "4"
+	if v6 {
+		fam = "6"
+	}
+	kind := ""
+	for _, m := range miss {
+		k := o.tags[fmt.Sprintf("%s|%x|%s", m, rd, fam)]
+		if k == "" || (kind != "" && k != kind) {
+			return ""
+		}
+		kind = k
+	}
+	return kind
+}
+
 // expected table content of (rd, family)
 func (o *oracle) expect(rd uint64, v6 bool) string {
 	fam := "4|"
@@ -364,7 +392,7 @@ func (o *oracle) expect(rd uint64, v6 bool) string {
 
 func runCase(h history) (obs string, sig, detail string, nt bool) {
 	s := bmpx.NewSession(h.cfg)
-	orc := &oracle{h: h, up: map[int]bool{}, ignored: map[int]bool{}, routes: map[int]map[string]bool{}}
+	orc := &oracle{h: h, up: map[int]bool{}, ignored: map[int]bool{}, routes: map[int]map[string]bool{}, tags: map[string]string{}}
 	var observers []observer
 	var toks []string
 	viol := func(sg, d string) {
@@ -421,6 +449,8 @@ func runCase(h history) (obs string, sig, detail string, nt bool) {
 						sg = "announced-route-missing-from-table"
 						if orc.shadowed(rd, miss) {
 							sg = "route-missing:address-shared-with-ignored-peer-of-other-vrf"
+						} else if hk := orc.hiddenKind(rd, v6, miss); hk != "" {
+							sg = "route-missing:hidden-" + hk
 						}
 					}
 					viol(sg, fmt.Sprintf("after action %d (%s peer %d): VRF %x family v6=%v exists=%v: table [%s], announced and not withdrawn by up peers [%s]", ai, a.m.kind, a.m.peer, rd, v6, exists, got, want))
@@ -554,10 +584,14 @@ func (h *history) meaningOf(t string) (meaning, error) {
 		if !ok {
 			return meaning{kind: "other"}, nil
 		}
-		return meaning{kind: "ann", peer: pi, post: b[7]&0x40 != 0, withdraw: wd, announce: an}, nil
+		return meaning{kind: "ann", peer: pi, post: b[7]&0x40 != 0, withdraw: wd, announce: an,
+			hidden: bmpx.HiddenKind(b[48:], h.ebgp(pi), bmpx.RouterID)}, nil
 	}
 	return meaning{kind: "other"}, nil
 }
+
+// ebgp: the session of the peer is external (local AS as learned from the sent OPEN of its peer up)
+func (h *history) ebgp(pi int) bool { return h.pool[pi].LocalAS != h.pool[pi].AS }
 
 func (h *history) peerOf(pph []byte) int {
 	var p bmpx.Peer
@@ -608,7 +642,11 @@ func (h *history) learnCaps(pi int, rest []byte) {
 	}
 	h.pool[pi].AP4 = has(srx, 1, 1, 3) && has(rtx, 1, 2, 3)
 	h.pool[pi].AP6 = has(srx, 2, 1, 3) && has(rtx, 2, 2, 3)
-	h.pool[pi].LocalAS = 0
+	las := uint32(sent[20])<<8 | uint32(sent[21])
+	if a4, ok := bmpx.ASN4Of(sent[:sl]); ok && las == 23456 {
+		las = a4
+	}
+	h.pool[pi].LocalAS = las
 }
 
 func main() {
